@@ -1,8 +1,83 @@
 import ErdosVerif.Driver.Util
+import ErdosVerif.Model.Clockwork
 namespace ErdosVerif.Driver.Clockwork
-open Lean ErdosVerif.Driver
+open Lean ErdosVerif.Driver ErdosVerif.Clockwork
 
-/-- Suite handler: one JSON case in, one JSON reply out (stub until the suite is built). -/
-def handle (_j : Json) : Json := Json.mkObj [("protocol_error", Json.str "suite-not-built")]
+/-
+Case:
+  {"suite":"clockwork","goal":"clockwork"|"least_slack",
+   "models":[{"strategies":[{"batch":b,"runtime":r,"req":[[name,q],..]}],"has_load":bool}],
+   "tasks":[{"model":m,"deadline":d}],            -- task id = position
+   "start":[m,..],                                 -- models registered by start(), in order
+   "invocations":[{"now":t,"offered":[tid..],
+                   "workers":[{"pool":p,"loaded":[m..],"avail":[[name,q],..]}],
+                   "load_err":null|cls}]}
+Reply:
+  {"steps":[{"err":null|cls,"cancels":[tid],"batches":[{"model","strategy","worker","tids"}],
+             "fuel_out":bool,
+             "state":[{"mid":m,"tasks":[[tid,cnt]..],"queues":[[tid..]..]}]}]}
+-/
+
+def parseResVec (j : Json) : Except String ResVec := do
+  let arr ← j.getArr?
+  mapM' (fun e => do
+    let p ← e.getArr?
+    match p.toList with
+    | [a, b] => return ((← a.getNat?), (← b.getNat?))
+    | _ => throw "bad-resvec") arr.toList
+
+def parseStrategy (j : Json) : Except String Strategy := do
+  return { batch := ← fldNat j "batch", runtime := ← fldInt j "runtime",
+           req := ← parseResVec (← fld j "req") }
+
+def parseModel (j : Json) : Except String ModelCfg := do
+  return { strategies := ← mapM' parseStrategy (← fldArr j "strategies"),
+           hasLoad := ← fldBool j "has_load" }
+
+def parseTask (j : Json) : Except String TaskCfg := do
+  return { model := ← fldNat j "model", deadline := ← fldInt j "deadline" }
+
+def parseNats (l : List Json) : Except String (List Nat) := mapM' (fun x => x.getNat?) l
+
+def parseWorker (j : Json) : Except String WorkerView := do
+  return { pool := ← fldNat j "pool", loaded := ← parseNats (← fldArr j "loaded"),
+           avail := ← parseResVec (← fld j "avail") }
+
+def parseInvocation (j : Json) : Except String Invocation := do
+  return { now := ← fldInt j "now", offered := ← parseNats (← fldArr j "offered"),
+           workers := ← mapM' parseWorker (← fldArr j "workers"),
+           loadErr := (fldOpt j "load_err").bind (fun x => x.getStr?.toOption) }
+
+def jOptStr : Option String → Json
+  | none => Json.null
+  | some s => Json.str s
+
+def jBatch (b : Batch) : Json :=
+  Json.mkObj [("model", jNat b.model), ("strategy", jNat b.strategy), ("worker", jNat b.worker),
+              ("tids", jList jNat b.tids)]
+
+def jMState (s : MState) : Json :=
+  Json.mkObj [("mid", jNat s.mid),
+              ("tasks", jList (fun e => Json.arr #[jNat e.tid, jInt e.cnt]) s.tasks),
+              ("queues", jList (fun q => jList (fun r => jNat r.tid) q) s.queues)]
+
+def jStep (r : SState × StepOut) : Json :=
+  Json.mkObj [("err", jOptStr r.2.err), ("cancels", jList jNat r.2.cancels),
+              ("batches", jList jBatch r.2.batches), ("fuel_out", Json.bool r.2.fuelOut),
+              ("state", jList jMState r.1)]
+
+def handleE (j : Json) : Except String Json := do
+  let goal := match fldStr j "goal" with
+    | .ok "least_slack" => Goal.leastSlack
+    | _ => Goal.clockwork
+  let cfg : Cfg := { models := ← mapM' parseModel (← fldArr j "models"),
+                     tasks := ← mapM' parseTask (← fldArr j "tasks"), goal := goal }
+  let start ← parseNats (← fldArr j "start")
+  let invs ← mapM' parseInvocation (← fldArr j "invocations")
+  let steps := run cfg (startModels cfg start) invs
+  return Json.mkObj [("steps", jList jStep steps)]
+
+/-- Suite handler: one JSON case in, one JSON reply out. -/
+def handle (j : Json) : Json := guardE (handleE j)
 
 end ErdosVerif.Driver.Clockwork
